@@ -225,12 +225,14 @@ def divides_by_zero_constant(root):
     return n
 
 
-def compare_equations(ctx, before, after, fresh, assignments, planted=None):
+def compare_equations(ctx, before, after, fresh, assignments, planted=None, balanced_move=True):
     """Solution-set preservation. Returns (verdict, info); verdict in
     {"ok", "not-equation", "divides-by-zero", "solution-lost", "solution-added"}."""
     if not is_equation(after):
         return "not-equation", {"result_kind": A.kind(after)}
-    if divides_by_zero_constant(after) > divides_by_zero_constant(before):
+    # "a balanced move never divides by zero": only that rule introduces divisions; other rules may legitimately turn
+    # an already-zero divisor such as (0 + 0) into the constant 0
+    if balanced_move and divides_by_zero_constant(after) > divides_by_zero_constant(before):
         return "divides-by-zero", {}
     vs = A.variables(before) | A.variables(after)
     bases = assignments[:2]
